@@ -344,6 +344,9 @@ def run_late(ctx, rng, cands, spec):
 def run(ctx, spec):
     env.setup()
     cands = wlxml.shipped(env.REPO)
+    if spec.get('shard') == 0 and ctx.tier == 'thorough':
+        from .. import objcheck
+        objcheck.long_history(ctx, ctx.rng, cands, 101000)     # (more messages on one connection than any round number a cap might use below it)
     for i in range(spec['n']):
         # one long history per shard (several hundred recorded messages), the others short
         run_one(ctx, ctx.rng, cands, spec if i else dict(spec, n_each=[300, 420], queries=6))
@@ -361,6 +364,9 @@ def finalize(m):
 
 def replay(ctx, case):
     env.setup()
+    if 'long_history' in case:
+        from .. import objcheck, wlxml as _w
+        return objcheck.long_history(ctx, ctx.rng, _w.shipped(env.REPO), case['long_history'])
     from backends.libwayland_debug_output import parse
     s = Session()
     for c in case.get('prime', []):
